@@ -122,6 +122,37 @@ func c07Check(ctx *vfCtx, c c07Case) {
 	if !c07Trivial[rule] {
 		ctx.NonTrivial()
 	}
+	// a provider one of whose lookups fails (its database query errors): Allowed returns normally
+	// whichever lookup it is, and a failed MEMBER / third-party-invite lookup - which Allowed reports to
+	// its caller - never turns a refusal into permission (a quarter of the refused cases, chosen by the
+	// event's bytes). A failed create / power-levels / join-rules lookup is read as "no such event" by the
+	// checker (by design): only the absence of a panic is demanded there.
+	if !want && !got && len(c.Event)%4 == 0 {
+		for _, membersOnly := range []bool{false, true} {
+			for failAt := 1; failAt <= 5; failAt++ {
+				fp := &raFailingProvider{failAt: failAt, membersOnly: membersOnly}
+				var ferr error
+				if vfCatch(ctx, "C07/failing-provider", func() {
+					fp.inner, _ = NewAuthEvents(pdus)
+					ferr = Allowed(ev, fp, vfUserIDForSender)
+				}) {
+					return
+				}
+				if !fp.failed {
+					break
+				}
+				if !membersOnly {
+					ctx.Class("failing-provider-lookup/any(no panic)")
+					continue
+				}
+				ctx.Class("failing-provider-lookup/member")
+				if ferr == nil {
+					ctx.Fail("C07/allowed-after-a-failed-member-lookup/"+rule+"/"+c07Band(c.Version), "the rules (%s) refuse the event and Allowed refuses it; when member lookup number %d of the provider fails, Allowed ALLOWS it; event=%s", rule, failAt, c.Event)
+					return
+				}
+			}
+		}
+	}
 	if got != want {
 		lib := "reject"
 		if got {
@@ -279,6 +310,10 @@ type c07Room struct {
 	TPI               *jv // content of the third_party_invite event (state key "tok")
 	TPISender         string
 	CreateRoomVersion string // "=" same as version, "-" absent, else literal
+	// OddProfiles: every member event of the state carries profile keys of the wrong JSON type next
+	// to its membership (displayname false, avatar_url a list, is_direct a string, reason a number);
+	// the rules read the membership and nothing else
+	OddProfiles bool
 }
 
 func c07RoomID(version string) string { return "!room:a.example" }
@@ -362,7 +397,11 @@ func c07Build(r c07Room) c07Built {
 		if !ok || m == "-" {
 			continue
 		}
-		add(raEv{Type: "m.room.member", Sender: u, StateKey: raSK(u), Content: jobj("membership", jstr(m))})
+		mc := jobj("membership", jstr(m))
+		if r.OddProfiles {
+			mc = jobj("displayname", jv{K: 'f'}, "avatar_url", jarr(jnum(1)), "membership", jstr(m), "is_direct", jstr("yes"), "reason", jnum(7))
+		}
+		add(raEv{Type: "m.room.member", Sender: u, StateKey: raSK(u), Content: mc})
 	}
 	if r.TPI != nil {
 		add(raEv{Type: "m.room.third_party_invite", Sender: r.TPISender, StateKey: raSK("tok"), Content: *r.TPI})
@@ -426,6 +465,7 @@ var c07Levels = []int64{0, 0, 49, 50, 50, 51, 100}
 func c07GenRoom(t *rapid.T, version string) c07Room {
 	tr := vtraits[version]
 	r := c07Room{Version: version, Members: map[string]string{}, JoinRule: "-"}
+	r.OddProfiles = rapid.IntRange(0, 7).Draw(t, "oddProfiles") == 0
 	r.Federate = rapid.SampledFrom([]string{"", "", "true", "false"}).Draw(t, "federate")
 	// (before version 12 an additional_creators list in the create content is just unknown content)
 	if (tr.Creators && rapid.Bool().Draw(t, "addCreator")) || (!tr.Creators && rapid.IntRange(0, 3).Draw(t, "addCreatorIgnored") == 0) {
@@ -715,6 +755,8 @@ func c07EnumMember(size, shard, nshards int, emit func(c07Case)) {
 										if idx%nshards != shard || !c07Pick(idx, size) {
 											continue
 										}
+										// every seventh room has member events with mistyped profile keys
+										c07OddProfilesNext = idx%7 == 3
 										cs := c07MemberCase(version, newMem, self, sPrev, tPrev, jr, sLvl, tLvl, via)
 										// the three thresholds are told apart in two thirds of the cases (rotating):
 										// the rule in force must be decided by ITS threshold, the others lie 10 away
@@ -722,6 +764,7 @@ func c07EnumMember(size, shard, nshards int, emit func(c07Case)) {
 											cs = c07MemberCaseWith(version, newMem, self, sPrev, tPrev, jr, sLvl, tLvl, via,
 												[]map[string]int64{nil, {"ban": 50, "kick": 40, "invite": 60}, {"ban": 40, "kick": 60, "invite": 50}}[p])
 										}
+										c07OddProfilesNext = false
 										emit(cs)
 									}
 								}
@@ -733,6 +776,9 @@ func c07EnumMember(size, shard, nshards int, emit func(c07Case)) {
 		}
 	}
 }
+
+// c07OddProfilesNext is read by c07MemberCaseWith (the enumerators run sequentially).
+var c07OddProfilesNext bool
 
 func c07MemberCase(version, newMem string, self bool, sPrev, tPrev, jr string, sLvl, tLvl int64, via string) c07Case {
 	return c07MemberCaseWith(version, newMem, self, sPrev, tPrev, jr, sLvl, tLvl, via, map[string]int64{"ban": 50, "kick": 50, "invite": 50})
@@ -750,7 +796,7 @@ func c07MemberCaseWith(version, newMem string, self bool, sPrev, tPrev, jr strin
 	if vtraits[version].Creators {
 		delete(users, c07Creator)
 	}
-	r := c07Room{Version: version, HasPL: true, JoinRule: jr, Members: map[string]string{c07Creator: "join", c07Alice: sPrev}}
+	r := c07Room{Version: version, HasPL: true, JoinRule: jr, Members: map[string]string{c07Creator: "join", c07Alice: sPrev}, OddProfiles: c07OddProfilesNext}
 	if !self {
 		r.Members[c07Bob] = tPrev
 	}
